@@ -528,3 +528,35 @@ Definition check_prog (c : cfg) (prog : list texpr) (rootargs : list value) (ops
       list_eqb Nat.eqb (classify cnode_eqb (flat_map (map job_node) ss)) exp_node
   | None => false
   end.
+
+(* ------------------------------------------------------------------------------------------ *)
+(** * "No Handle state is passed to two sibling calls" (used to state the theorem about the
+      repaired `_preprocess_args` call site) *)
+Fixpoint handles_v (v : value) : list value :=
+  match v with
+  | VInt _ => []
+  | VList l => flat_map handles_v l
+  | _ => [v]
+  end.
+Definition handles_l (l : list value) : list value := flat_map handles_v l.
+
+(** the Handle states job [jb] passes on, if it is a child of [p] whose arguments are evaluated *)
+Definition contrib (p : nat) (jb : job) : list value :=
+  match j_parent jb, st_raw (j_st jb) with
+  | Some p', Some raw => if Nat.eqb p' p then handles_l raw else []
+  | _, _ => []
+  end.
+(** all Handle states passed to child calls of job [p] so far (with multiplicity) *)
+Definition uses (s : state) (p : nat) : list value := flat_map (contrib p) s.
+
+Fixpoint count_v (h : value) (l : list value) : nat :=
+  match l with
+  | [] => 0
+  | x :: r => (if value_eqb x h then 1 else 0) + count_v h r
+  end.
+
+Definition linear (s : state) : Prop := forall p h, count_v h (uses s p) <= 1.
+
+Definition linear_b (s : state) : bool :=
+  forallb (fun jb => match j_parent jb with Some p => Nat.ltb p (length s) | None => true end) s &&
+  forallb (fun p => forallb (fun h => Nat.leb (count_v h (uses s p)) 1) (uses s p)) (seq 0 (length s)).
